@@ -25,6 +25,7 @@ class Cfg:
         strip_suffix=(), prefix="", suffix="", zero_cap=False, min_len=None, max_len=None, max_n=None, max_ee=None, max_aer=None,
         casava=False, discard_trimmed=False, discard_untrimmed=False, untrimmed_output=False, too_short_output=False,
         too_long_output=False, demux=False, info_file=False, fasta=False, rename=None,
+        demux_twice=False, # {name} occurs twice in the output path (every occurrence is replaced)
         side_files=(),     # subset of ("rest", "wildcard"): --rest-file / --wildcard-file, which must not influence anything else
         index=False,       # True: run without --no-index (only for adapter sets for which no index can be built, C09)
     )
@@ -135,7 +136,7 @@ class Cfg:
             rng.shuffle(groups)
             it = iter(kept)
             groups = [next(it) if x[0] in keep else x for x in groups]
-        out = "out.{name}." + self.ext() if self.demux else "out." + self.ext()
+        out = ("out.{name}.{name}." if self.demux_twice else "out.{name}.") + self.ext() if self.demux else "out." + self.ext()
         # position 0 is either --no-index or a no-op, so that the fixed positions of the other arguments stay
         argv = ["--cores=1" if self.index else "--no-index", "--json", os.path.join(d, "report.json"), "-o", os.path.join(d, out)]
         for x in groups:
@@ -143,6 +144,14 @@ class Cfg:
         argv += list(extra)
         argv.append(os.path.join(d, "in." + self.ext()))
         return argv
+
+
+def demux_key(stem, twice):
+    """the adapter name a demultiplexed file stands for; with {name} twice in the path both copies must have been replaced"""
+    if not twice:
+        return stem
+    a, _, b = stem.partition(".")
+    return a if a == b else stem
 
 
 # ---------------------------------------------------------------- implementation side
@@ -243,7 +252,7 @@ def run_impl(cfg, reads, d, rng=None, extra=()):
         if f in names:
             res["files"][names[f]] = read_records(p)
         elif f.startswith("out.") and f.endswith("." + ext) and cfg.demux:
-            res["files"]["name:" + f[4: -len(ext) - 1]] = read_records(p)
+            res["files"]["name:" + demux_key(f[4: -len(ext) - 1], cfg.demux_twice)] = read_records(p)
     rp = os.path.join(d, "report.json")
     if os.path.exists(rp):
         res["report"] = json.load(open(rp))
@@ -598,6 +607,7 @@ def rand_cfg(rng, focus=()):
             c.untrimmed_output = True
         if f("demux", 0.12) and not c.discard_trimmed:
             c.demux = True
+            c.demux_twice = rng.random() < 0.25
     c.info_file = f("info", 0.3)
     if nad and f("sidefiles", 0.1) and not any("..." in spec for _, spec in ads):
         # (with a linked adapter --rest-file/--wildcard-file end in an AttributeError traceback: LinkedMatch has neither rest() nor
